@@ -427,6 +427,10 @@ impl RefS2k {
     pub fn derive(&self, pw: &[u8], key_len: usize) -> Option<Vec<u8>> {
         match self {
             RefS2k::Argon2 { salt, t, p, m } => {
+                // RFC 9580 3.7.1.4: t, p >= 1 and 3 + ceil(log2 p) <= m <= 31
+                if *t == 0 || *p == 0 || *m > 31 || (1u64 << *m) < 8 * *p as u64 {
+                    return None;
+                }
                 let params =
                     argon2::Params::new(1u32 << *m, *t as u32, *p as u32, Some(key_len)).ok()?;
                 let a = argon2::Argon2::new(argon2::Algorithm::Argon2id, argon2::Version::V0x13, params);
